@@ -62,18 +62,38 @@ func (c *cutReader) Read(p []byte) (int, error) {
 	return n, nil
 }
 
+// frames extracts all frames. The consumer of a connection keeps frames while the framer reads on (the read
+// loop queues them for the session), so the frames are also held as returned and compared with the copies
+// taken at once when the stream is exhausted: changed = index of the first frame whose bytes changed
+// after it was returned, or -1.
 func frames(stream []byte, cuts []int, eofWithData bool) (out [][]byte, term string, caps map[int]bool) {
+	out, term, caps, _ = framesHeld(stream, cuts, eofWithData)
+	return
+}
+
+func framesHeld(stream []byte, cuts []int, eofWithData bool) (out [][]byte, term string, caps map[int]bool, changed int) {
 	caps = map[int]bool{}
+	var held [][]byte
+	changed = -1
+	defer func() {
+		for i := range held {
+			if !bytes.Equal(held[i], out[i]) {
+				changed = i
+				return
+			}
+		}
+	}()
 	p := quickfix.VerifNewParser(&cutReader{data: stream, cuts: cuts, eofWithData: eofWithData})
 	for i := 0; i < 1000000; i++ {
 		b, err := p.ReadMessage()
 		caps[p.BufCap()] = true
 		if err != nil {
-			return out, err.Error(), caps
+			return out, err.Error(), caps, changed
 		}
+		held = append(held, b)
 		out = append(out, append([]byte{}, b...))
 	}
-	return out, "runaway", caps
+	return out, "runaway", caps, changed
 }
 
 type stream struct {
@@ -292,8 +312,13 @@ func runCase(c *core.Ctx, r *core.Result, sname string, i int, rng *rand.Rand, v
 	}
 	crossing := strings.ContainsAny(s.Sizes, "LX")
 	for _, ch := range chunkings(rng, s.Data, i%20 == 0) {
-		got, term, caps := frames(s.Data, ch.Cuts, ch.EOF)
+		got, term, caps, changed := framesHeld(s.Data, ch.Cuts, ch.EOF)
 		r.Eval(1)
+		if changed >= 0 {
+			d := fmt.Sprintf("chunking %s: frame %d of %d changed after it had been returned (the framer went on reading into the bytes it handed out)", ch.Name, changed+1, len(got))
+			r.Violate("C12/frame-changed-after-return", d, core.CaseRef{Stream: sname, Index: i, Detail: mkw(ch, d)})
+			return
+		}
 		for k := range caps {
 			r.Seen("buffer_capacities", fmt.Sprint(k))
 		}
